@@ -4,13 +4,16 @@ Specification: specs/vm/VMOps.tla (+ VMGas, VMValues, VMParse, lib/VMNat) is val
 construction (stacks of byte sequences), so the reference execution *is* the statement "results
 depend only on the byte values". specs/vm/VMRun.tla runs it as a state machine.
   E (enumerated): TLC enumerates every program of <= 3 (quick) / <= 4 (thorough) instructions over
-      the aliasing-relevant alphabet (VMAliasCases.tla) x 3 argument lists; TLC computes the reference
-      execution of each; the driver runs the real vm.Verify three times per case - arguments, state
-      and program in independent exact-capacity buffers, in buffers with spare capacity, and as
-      sub-slices of ONE buffer produced by the repository's own decoder (ReadVarstrList/ReadVarstr31)
-      - and requires in all three: the vm.TraceOut step trace (pc, gas, opcode, data stack after
+      the aliasing-relevant alphabet (VMAliasCases.tla) x 4 contexts (argument list + 0..3 initial
+      state-data items); TLC computes the reference execution of each; the driver runs the real
+      vm.Verify in three layouts per case - arguments, state and program in independent exact-capacity
+      buffers, in buffers with spare capacity, and as sub-slices of ONE buffer produced by the
+      repository's own decoder (ReadVarstrList/ReadVarstr31); the argument and state-data LISTS have
+      exact capacity in the first layout and are prefixes all[:k] of longer caller-owned lists in the
+      other two - verifies the SAME context twice, and requires in all three layouts and both runs: the vm.TraceOut step trace (pc, gas, opcode, data stack after
       every instruction), result class and remaining gas equal the reference, and every
-      caller-visible buffer (including spare capacity) is byte-identical afterwards.
+      caller-visible buffer (including spare capacity) is byte-identical and both caller lists (length,
+      every entry, the entries behind them in the backing array) are unchanged afterwards.
   T (seeded): random programs of 3-12 instructions over a wider alphabet, same judgement.
 """
 import os
@@ -23,12 +26,12 @@ def run(ctx):
     quick = ctx.tier == "quick"
     total, samples, states, trans = {}, [], 0, 0
     # ---- E: exhaustive small programs, enumerated by TLC
-    # quick: one half (chosen by the seed) of all programs of <= 3 instructions;
-    # thorough: all programs of <= 3 instructions and 3 of 16 shards (chosen by the seed) of those of <= 4
+    # quick: one third (chosen by the seed) of all programs of <= 3 instructions;
+    # thorough: all programs of <= 3 instructions and 3 of 20 shards (chosen by the seed) of those of <= 4
     if quick:
-        shards = [("cfg/VMAliasCases.quick.cfg", ctx.seed % 2)]
+        shards = [("cfg/VMAliasCases.quick.cfg", ctx.seed % 3)]
     else:
-        shards = [("cfg/VMAliasCases.full3.cfg", 0)] + [("cfg/VMAliasCases.thorough.cfg", (ctx.seed + 5 * j) % 16) for j in range(3)]
+        shards = [("cfg/VMAliasCases.full3.cfg", 0)] + [("cfg/VMAliasCases.thorough.cfg", (ctx.seed + 7 * j) % 20) for j in range(3)]
     exhaustive = not quick
     fam0 = None
     for n, (cfg, k) in enumerate(shards):
@@ -58,20 +61,20 @@ def run(ctx):
     control = vm_lib.negative_control(ctx, b, famr)
     ctx.finish("model_checking", dict(
         states=states, transitions=trans,
-        traces_validated_against_impl=total.get("cases", 0) * 3,
+        traces_validated_against_impl=total.get("cases", 0) * 3 + total.get("second_verifications", 0),
         samples=samples,
         cases=total.get("cases", 0), reference_steps=total.get("steps", 0),
         distinct_nontrivial=total.get("distinct_nontrivial", 0),
-        buffer_layouts=total.get("layouts"), mismatches=total.get("mismatches", 0),
+        buffer_layouts=total.get("layouts"), second_verifications=total.get("second_verifications", 0), mismatches=total.get("mismatches", 0),
         caller_buffer_changes=total.get("buffer_changes", 0),
         opcodes_completed=total.get("opcodes_completed"), result_classes=total.get("result_classes"),
         families=total.get("families"), negative_control=control,
         exhaustive=exhaustive,
-        rule="E: %s over 21 aliasing-relevant instructions x 3 argument lists (TLC-enumerated), "
+        rule="E: %s over 21 aliasing-relevant instructions x 4 contexts (argument list + 0..3 state-data items; TLC-enumerated), "
              "T: %d seeded random programs of 3-12 instructions over 40 instructions; each executed "
              "in 3 buffer layouts; non-trivial = at least one instruction completes in the reference execution"
-             % ("one half (by seed) of all programs of <= 3 instructions" if quick else
-                "all programs of <= 3 instructions and 3 of 16 shards (by seed) of all programs of <= 4 instructions", nrand),
+             % ("one third (by seed) of all programs of <= 3 instructions" if quick else
+                "all programs of <= 3 instructions and 3 of 20 shards (by seed) of all programs of <= 4 instructions", nrand),
     ), assumptions=[
         "the alt stack is observed only through later data-stack contents (vm.TraceOut does not print it)",
         "hash functions are uninterpreted; their values are facts computed with the Go standard library",
